@@ -18,6 +18,10 @@ impl<'a> ProcessTransaction<'a> {
     pub fn new(ps: &'a mut ProcessState, behavior: TransactionBehavior, Tracked(dbw): Tracked<&DbWorld>) -> (r: Result<ProcessTransaction<'a>, SqlError>)
         ensures r matches Ok(p) ==> p@ == dbw.committed && p.spec_env() == old(ps).spec_env()
             && p.tx_mode() == behavior_mode(behavior) && !p.has_read() && !p.has_written(),
+            // when the borrow ends (the transaction was committed or dropped: finish_ resets `wrote` on every path that
+            // returns) the process state is flushed again and its environment is what it was
+            r is Ok ==> final(ps).spec_flushed(), r is Err ==> final(ps).spec_flushed() == old(ps).spec_flushed(),
+            final(ps).spec_env() == old(ps).spec_env(),
     { unimplemented!() }
     /// TRUSTED (COMMIT): atomically publishes the transaction's view; a transaction that is dropped instead rolls back
     #[verifier::external_body]
